@@ -13,8 +13,10 @@ import (
 	"github.com/chzyer/readline"
 	"github.com/paulsonkoly/calc/combinator"
 	"github.com/paulsonkoly/calc/flags"
+	"github.com/paulsonkoly/calc/lexer"
 	"github.com/paulsonkoly/calc/types/bytecode"
 	"github.com/paulsonkoly/calc/types/compresult"
+	"github.com/paulsonkoly/calc/types/token"
 	"github.com/paulsonkoly/calc/vm"
 )
 
@@ -72,9 +74,6 @@ type Parser interface {
 
 // Loop is the repl-loop.
 func Loop(r lineReader, p Parser, vm *vm.Type, doOut bool) {
-	blocksOpen := 0
-	quotesOpen := 0
-	bracketsOpen := 0
 	input := ""
 	sep := ""
 
@@ -84,18 +83,45 @@ func Loop(r lineReader, p Parser, vm *vm.Type, doOut bool) {
 			break
 		}
 
-		blocksOpen += strings.Count(line, "{") - strings.Count(line, "}")
-		quotesOpen += strings.Count(line, "\"") - strings.Count(line, "\\\"")
-		bracketsOpen += strings.Count(line, "[") - strings.Count(line, "]")
 		input += sep + line
 		sep = "\n"
 
-		if blocksOpen == 0 && quotesOpen%2 == 0 && bracketsOpen == 0 {
+		if complete(input) {
 			processInput(input, p, vm, doOut)
 			sep = ""
 			input = ""
 		}
 	}
+}
+
+// complete reports whether input leaves no block, array literal or string
+// literal open. It counts tokens, so braces, brackets and quotes inside string
+// literals and comments do not count.
+func complete(input string) bool {
+	blocksOpen, bracketsOpen := 0, 0
+
+	l := lexer.NewLexer(input)
+	for l.Next() {
+		if l.Err != nil {
+			// any other lexer error is for the parser to report
+			return l.Err != lexer.ErrUnterminatedString
+		}
+		if l.Token.Type != token.NotSticky {
+			continue
+		}
+		switch l.Token.Value {
+		case "{":
+			blocksOpen++
+		case "}":
+			blocksOpen--
+		case "[":
+			bracketsOpen++
+		case "]":
+			bracketsOpen--
+		}
+	}
+
+	return blocksOpen == 0 && bracketsOpen == 0
 }
 
 func processInput(input string, p Parser, vm *vm.Type, doOut bool) {
